@@ -42,6 +42,14 @@ func runC09(cases string, res *Result) {
 		out, class, spy, det := runEvalCase(c)
 		res.Evaluations++
 		observed := evalObserved(out, class)
+		if stream != "core" {
+			res.Hist["under-other-engine-settings"]++
+			if msg := evalUnderSettings(c, parseContext(c.str("ctx")), nil, out, class); msg != "" {
+				res.add(Finding{Kind: "oracle", Where: stream + "/settings", Case: c, Expected: observed, Observed: msg,
+					Detail: "engine settings that have nothing to do with control flow change what the template renders"})
+				return
+			}
+		}
 		res.Hist["class:"+class]++
 		model := "out:" + hx(val)
 		if kind == "err" {
